@@ -177,6 +177,9 @@ func metaDoc(c model.MetaCfg, format string, t *fixture.Tree) fixture.Doc {
 	}
 	if c.Changelog {
 		d["changelog"] = filepath.Join(t.Root, "changelog.yaml")
+		if c.ChangelogFile != "" {
+			d["changelog"] = filepath.Join(t.Root, c.ChangelogFile)
+		}
 	}
 	return d
 }
@@ -222,6 +225,9 @@ func relItems(kind string, variant string) []model.RelItem {
 		return []model.RelItem{{Name: p + "1", Op: ">=", Ver: "1.0"}, {Name: p + "2"}, {Name: p + "3", Op: "<", Ver: "2.0-1"}, {Name: p + "4", Op: "=", Ver: "3"}}
 	case "twice":
 		return []model.RelItem{{Name: p + "1", Op: ">=", Ver: "1.2"}, {Name: p + "1", Op: "<", Ver: "2.0"}, {Name: p + "2"}}
+	case "ownname":
+		// names that begin with the name of the package itself (the package is called pkg)
+		return []model.RelItem{{Name: "pkg-" + p}, {Name: "pkg" + p, Op: "=", Ver: "2.1"}, {Name: "pkgx" + p}, {Name: p + "-pkg"}}
 	case "single":
 		return []model.RelItem{{Name: p + "-only"}}
 	case "many":
@@ -473,14 +479,14 @@ func enumC02(env *engine.Env, yield func(any) bool) {
 			return
 		}
 	}
-	for _, variant := range []string{"plain", "versioned", "twice", "single"} {
+	for _, variant := range []string{"plain", "versioned", "twice", "single", "ownname"} {
 		for i, k1 := range model.RelKinds {
 			c := baseMeta()
 			c.Rel = map[string][]model.RelItem{k1: relItems(k1, variant)}
 			if !emit("rel1", c) {
 				return
 			}
-			if variant == "single" {
+			if variant == "single" || variant == "ownname" {
 				continue
 			}
 			for _, k2 := range model.RelKinds[i+1:] {
@@ -558,10 +564,16 @@ func enumC02(env *engine.Env, yield func(any) bool) {
 			c.DebTriggers = map[string][]string{"interest": {"trig-a", "trig-b"}, "interest_await": {"trig-c"}, "interest_noawait": {"trig-d"}, "activate": {"trig-e"}, "activate_await": {"trig-f"}, "activate_noawait": {"trig-g"}}
 		},
 		func(c *model.MetaCfg) {
+			// field names that are not in "canonical header" form: written as configured
+			c.IPKFields = map[string]string{"SourceName": "src", "OE": "core", "X-Git-SHA": "0123abc", "lowercase-field": "v", "MiXed-CaSe": "w"}
+			c.DebFields = map[string]string{"SourceName": "src", "OE": "core", "X-Git-SHA": "0123abc", "lowercase-field": "v", "MiXed-CaSe": "w"}
+		},
+		func(c *model.MetaCfg) {
 			// one name under several directives, a name twice under one
 			c.DebTriggers = map[string][]string{"interest": {"trig-a", "trig-shared"}, "interest_noawait": {"trig-shared2"}, "activate": {"trig-shared", "trig-b"}, "activate_noawait": {"trig-shared2", "trig-shared"}}
 		},
 		func(c *model.MetaCfg) { c.Changelog = true },
+		func(c *model.MetaCfg) { c.Changelog, c.ChangelogFile = true, "changelog-unordered.yaml" },
 		func(c *model.MetaCfg) { c.Platform = "darwin" },
 		func(c *model.MetaCfg) { c.Platform = "freebsd"; c.FormatArch = "customarch" },
 	}
@@ -574,8 +586,8 @@ func enumC02(env *engine.Env, yield func(any) bool) {
 	}
 	if env.Thorough() {
 		// every pair of extras together
-		for i, a := range extras[:11] {
-			for _, b := range extras[i+1 : 11] {
+		for i, a := range extras[:13] {
+			for _, b := range extras[i+1 : 13] {
 				c := baseMeta()
 				a(&c)
 				b(&c)
@@ -737,7 +749,11 @@ func checkC02(env *engine.Env, ci any) engine.Outcome {
 	if c.Cfg.Changelog {
 		c02Fresh++
 		cp := filepath.Join(t.Root, fmt.Sprintf("changelog-fresh-%d.yaml", c02Fresh))
-		os.WriteFile(cp, []byte(fixture.Changelog), 0o644)
+		clText := fixture.Changelog
+		if c.Cfg.ChangelogFile == "changelog-unordered.yaml" {
+			clText = fixture.UnorderedChangelog
+		}
+		os.WriteFile(cp, []byte(clText), 0o644)
 		os.Chtimes(cp, fixture.T0, fixture.T0)
 		defer os.Remove(cp)
 		pd["changelog"], cd["changelog"] = cp, cp
@@ -1091,6 +1107,49 @@ func normRPMRel(l []string) []string {
 }
 
 func judgeChangelog(f string, c model.MetaCfg, pkg *pkgread.Pkg, viol func(sig, format string, a ...any)) {
+	if c.Changelog && c.ChangelogFile == "changelog-unordered.yaml" {
+		// the entries appear in the order of the file, whatever their versions
+		wantOrder := []string{"1.0.1", "2.0.0", "0.9.0-rc1", "2.0.0", "1.5.0"}
+		wantNotes := []string{"first in the file", "second in the file", "third in the file", "fourth in the file", "last in the file"}
+		var got []string
+		text := ""
+		switch f {
+		case "deb":
+			if e := pkg.Entry("/usr/share/doc/" + c.Name + "/changelog.Debian.gz"); e != nil {
+				if txt, err := pkgread.Decompress("gzip", e.Data, nil); err == nil {
+					text = string(txt)
+					for _, l := range strings.Split(text, "\n") {
+						if strings.HasPrefix(l, c.Name+" (") {
+							got = append(got, strings.TrimSuffix(strings.SplitN(strings.TrimPrefix(l, c.Name+" ("), ")", 2)[0], ")"))
+						}
+					}
+				}
+			}
+		case "rpm":
+			for _, tl := range pkg.RPM.Hdr.Strs(1081) {
+				fs := strings.Fields(tl)
+				if len(fs) > 0 {
+					got = append(got, fs[len(fs)-1])
+				}
+			}
+			text = strings.Join(pkg.RPM.Hdr.Strs(1082), "\n")
+		default:
+			return
+		}
+		if fmt.Sprint(got) != fmt.Sprint(wantOrder) {
+			viol("meta:extra-changelog-order:"+f, "changelog entries appear as %v, the file lists them as %v", got, wantOrder)
+		}
+		last := -1
+		for _, n := range wantNotes {
+			i := strings.Index(text, n)
+			if i < 0 || i < last {
+				viol("meta:extra-changelog-order:"+f, "the notes of the changelog entries are missing or not in the order of the file (%q): %q", n, trunc(text, 500))
+				break
+			}
+			last = i
+		}
+		return
+	}
 	notes := []string{"second release note one", "second release note two", "first release note", "entry without packager"}
 	switch f {
 	case "deb":
